@@ -429,6 +429,15 @@ func (c *Cache) Snapshot() (*Cache, error) {
 	return c.snapshot, nil
 }
 
+// snapshotRetried reports whether the snapshot handed out by the last call to
+// Snapshot is the store of an earlier attempt that failed, handed out again
+// unchanged for a retry.
+func (c *Cache) snapshotRetried() bool {
+	c.mu.RLock()
+	defer c.mu.RUnlock()
+	return c.snapshotAttempts > 1
+}
+
 // Deduplicate sorts the snapshot before returning it. The compactor and any queries
 // coming in while it writes will need the values sorted.
 func (c *Cache) Deduplicate() {
